@@ -203,7 +203,7 @@ def jobs(tier, seed):
                           {"shape": sh, "form": "list", "protocol": proto, "limits": False, "comma_padding": True},
                           reach=["C08.v1-meaning(AND of OR, -/~ negate, @ optional)"], min_paths=10, cost=4 * 6 ** sum(sh), validate=40, closure=False))
     # the same tag plain and negated inside one group ("@a,-@a" is always true; "-@a,@b,@a" likewise)
-    for sh, names in (([2], ["a", "a"]), ([3], ["a", "b.c", "a"]), ([2, 1], ["a", "a", "b.c"])):
+    for sh, names in (([2], ["a", "a"]), ([3], ["a", "b.c", "a"]), ([2, 1], ["a", "a", "b.c"]), ([1, 1], ["a", "a"]), ([1, 1, 1], ["a", "b.c", "a"])):
         for form in ("list", "string"):
             js.append(Job("v1same.%s.%s.v1" % ("x".join(map(str, sh)), form), "props.c08:h_v1",
                           {"shape": sh, "form": form, "protocol": "v1", "limits": False, "names": names, "prefixes": [0, 2, 5]},
